@@ -59,25 +59,23 @@ Lemma vg_sym cf d iv jv k l :
 Proof. unfold vg_sw, vg_num. apply vg_terms_sym. Qed.
 
 (* ---------------------------------------------------------------- generic form, every estimator *)
-Lemma accumulate1_generic cf d l k :
-  c_dateLoop cf = false -> 0 < d_dpas d -> 0 <= d_tol d ->
+Lemma accumulate1_generic cf d n l k :
+  0 < d_dpas d -> 0 <= d_tol d -> Forall (same_dim n) l ->
   (k < dir_size (is_asym (c_calc cf)) (d_npas d) (c_nvar cf))%nat ->
   cell_eq (nth k (accumulate1 cf d l) cell0)
           (spec_cell (flat_map (fun p => pair_updates cf d (stat_means cf l) (fst p) (snd p))
-                               (all_pairs (filter (usable cf) (sort_x1 l)))) k).
+                               (filter (unskipped cf) (loop_pairs (c_dateLoop cf) [] (sort_x1 l)))) k).
 Proof.
-  intros Hd H1 H2 Hk. unfold accumulate1, zero_arr.
-  rewrite (reached1_all_pairs cf d l Hd H1 H2).
-  rewrite (all_pairs_filter (usable cf) (sort_x1 l)).
-  rewrite <- (filter_ext_eq (unskipped cf) (fun p => usable cf (fst p) && usable cf (snd p))).
-  - apply apply_upds_sums. exact Hk.
-  - intro p. unfold unskipped. rewrite !unskipped_usable. reflexivity.
+  intros H1 H2 Hl Hk. unfold accumulate1, zero_arr.
+  rewrite (reached1_updates cf d (stat_means cf l) n l H1 H2 Hl).
+  apply apply_upds_sums. exact Hk.
 Qed.
 
 (* ---------------------------------------------------------------- permutation, model level (variogram) *)
-Lemma accumulate1_vg_perm cf d l l' iv jv k :
+Lemma accumulate1_vg_perm cf d n l l' iv jv k :
   c_calc cf = Vg -> c_dateLoop cf = false -> c_dateChk cf = false ->
   0 < d_dpas d -> 0 <= d_tol d -> 0 <= d_psmin d -> 0 < Qred (dot (d_codir d) (d_codir d)) ->
+  Forall (same_dim n) l ->
   (jv <= iv)%nat -> (iv < c_nvar cf)%nat -> (k < d_npas d)%nat ->
   Permutation l l' ->
   let adr := dir_address false (d_npas d) iv jv k Ozero in
@@ -85,9 +83,10 @@ Lemma accumulate1_vg_perm cf d l l' iv jv k :
   a_glo (nth adr (accumulate1 cf d l) cell0) == a_glo (nth adr (accumulate1 cf d l') cell0) /\
   a_ghi (nth adr (accumulate1 cf d l) cell0) == a_ghi (nth adr (accumulate1 cf d l') cell0).
 Proof.
-  intros Hc Hl Hk' Hdp Htol Hps Hco Hj Hi Hk Hp. cbv zeta.
-  destruct (accumulate1_vg cf d Hc Hl Hk' Hdp Htol Hps Hco l iv jv k Hj Hi Hk) as (A1 & A2 & A3).
-  destruct (accumulate1_vg cf d Hc Hl Hk' Hdp Htol Hps Hco l' iv jv k Hj Hi Hk) as (B1 & B2 & B3).
-  destruct (vg_sums_perm cf d iv jv k l l' Hp) as [P1 P2].
+  intros Hc Hl Hk' Hdp Htol Hps Hco Hdim Hj Hi Hk Hp. cbv zeta.
+  assert (Hdim' : Forall (same_dim n) l') by (eapply Permutation_Forall; eassumption).
+  destruct (accumulate1_vg cf d Hc Hk' Hdp Htol Hps Hco n l iv jv k Hl Hdim Hj Hi Hk) as (A1 & A2 & A3).
+  destruct (accumulate1_vg cf d Hc Hk' Hdp Htol Hps Hco n l' iv jv k Hl Hdim' Hj Hi Hk) as (B1 & B2 & B3).
+  destruct (vg_sums_perm cf d Hk' iv jv k l l' Hp) as [P1 P2].
   rewrite A1, A2, A3, B1, B2, B3. repeat split; assumption.
 Qed.
